@@ -56,6 +56,17 @@ func (fsm *FSM) sessionExpiration() time.Duration {
 	return fsm.sessionExpirationDur
 }
 
+// refreshSessionExpiration sets the compaction horizon from the configuration
+// of the current (e.g. just restored) ircServer, like applying a Config
+// message does.
+func (fsm *FSM) refreshSessionExpiration() {
+	ircServer.ConfigMu.RLock()
+	defer ircServer.ConfigMu.RUnlock()
+	fsm.sessionExpirationMu.Lock()
+	defer fsm.sessionExpirationMu.Unlock()
+	fsm.sessionExpirationDur = time.Duration(ircServer.Config.SessionExpiration)
+}
+
 // sendMessages appends the specified batch of messages to the output,
 // marking them as a response to the incoming message with id 'id' and
 // associating them with session 'session'. IRC clients will
@@ -118,6 +129,11 @@ func (fsm *FSM) applyRobustMessage(msg *robust.Message, i *ircserver.IRCServer, 
 			defer i.ConfigMu.Unlock()
 			i.Config = newCfg
 			i.Config.Revision = msg.Revision
+			if i != ircServer {
+				// Snapshot() folds old messages into a temporary server,
+				// which must not change the compaction horizon.
+				return nil
+			}
 			fsm.sessionExpirationMu.Lock()
 			defer fsm.sessionExpirationMu.Unlock()
 			fsm.sessionExpirationDur = time.Duration(i.Config.SessionExpiration)
@@ -370,6 +386,7 @@ func (fsm *FSM) Restore(snap io.ReadCloser) error {
 	defer fsm.restoreMu.Unlock()
 	log.Printf("Obtained restore lock")
 	defer snap.Close()
+	defer fsm.refreshSessionExpiration()
 
 	if err := fsm.ircstore.Close(); err != nil {
 		log.Fatal(err)
